@@ -72,7 +72,10 @@ func (mt *memtable) recover() int64 {
 		return 0
 	}
 
-	slices.Sort(walFiles)
+	// oldest first
+	slices.SortFunc(walFiles, func(a, b string) int {
+		return wal.CompareVersion(wal.ParseVersion(path.Base(a)), wal.ParseVersion(path.Base(b)))
+	})
 
 	var maxVersion int64
 
